@@ -22,8 +22,15 @@ class Check(RuntimeCheck):
         return ("exhaustive: every quantifier chain with 1..3 segments (thorough: 4), counts 0..2 (thorough 0..3), last "
                 "quantifier in {once, n_times, at_least_times, unquantified}, response kinds rotated over {returns, "
                 "returns_default, answers_arc, panics, applies_unmocked, applies_default_impl}, as some_call / each_call / "
-                "next_call / stub pattern, matched sum+2 times through the original and a clone; plus random scenarios. "
+                "next_call / stub pattern, matched sum+2 times through the original and a clone; plus random scenarios; plus the single-use "
+                "composite return cases (Option/Result/Vec/Poll/tuples with owned leaves) requested three times. "
                 "non-trivial = chain with >=2 segments or a single-use response requested at least twice")
+
+    def extra(self, rep, tier, seed):
+        # "a response configured without Clone is single-use" also for owned leaves inside composite return kinds:
+        # the compiled single-use cases of C17's harness, judged against the proved Output model
+        from .c17 import Check as C17
+        C17().explore(rep, only_paths=['once'], merge=True, prop=self.prop)
 
     def exhaustive(self, tier):
         maxseg = 3 if tier == 'quick' else 4
